@@ -183,14 +183,9 @@ public:
     const Scalar th  = a_in.z();
     const Scalar th2 = th * th;
 
-    const auto A = [&]() -> Scalar {
-      if (th2 < Scalar(eps2)) {
-        // https://www.wolframalpha.com/input/?i=series+1%2Fx%5E2+-+%281+%2B+cos+x%29+%2F+%282+*+x+*+sin+x%29+at+x%3D0
-        return Scalar(1) / Scalar(12) + th2 / Scalar(720);
-      } else {
-        return (Scalar(1) / th2) - (Scalar(1) + cos(th)) / (Scalar(2) * th * sin(th));
-      }
-    }();
+    // coefficient 1/th^2 - (1 + cos th) / (2 th sin th) of ad^2 from the Taylor tails: the closed form loses
+    // eps / th^2 to cancellation (an absolute error of 6 in single precision just above th = 1e-4)
+    const Scalar A = detail::dexpinv_coefs<Scalar>(th2)[0];
 
     Eigen::Matrix3<Scalar> ad_a;
     ad(a_in, ad_a);
